@@ -254,13 +254,17 @@ def _unparse_JoinedStr(node: JoinedStr, qm: typing.Literal["'", '"']) -> unparse
 
 def unparse_JoinedStr(node: JoinedStr, qm: typing.Literal["'", '"']) -> unparse_gen_t:
     contents = yield from _unparse_JoinedStr(node, qm)
-    if sys.version_info < (3, 12) and "\\" in contents:  # pragma: no cover
-        raise SyntaxError("Back slash is included in a f-string")
     return f"f{qm}{contents}{qm}"
 
 
 def unparse_FormattedValue(node: FormattedValue, qm) -> unparse_gen_t:
     value = yield PREC_FORMAT_EXPR_SLOT, node.value
+    if sys.version_info < (3, 12) and "\\" in value:  # pragma: no cover
+        # only the expression part must not contain a backslash,
+        # the literal parts of an f-string may be escaped in every version
+        raise SyntaxError(
+            "Back slash is included in the expression part of a f-string"
+        )
     format_spec = ""
     if node.format_spec is not None:
         assert isinstance(node.format_spec, JoinedStr)
